@@ -25,6 +25,7 @@ Known findings (open, keyed narrowly): F20 automatic KK on sparse spectra (<7 po
 (origin function, exception type); F21 tr-nnls nnls iteration limit without an explicit max_iter; cnls with pooled log F_ext
 evaluation (nested pools).  The same crash on an ordinary spectrum / at another origin is a VIOLATION.
 """
+import dis
 import linecache
 import math
 import os
@@ -54,7 +55,7 @@ RULE = (
     "(entry point, option cell, size class) keys that reached a verdict."
 )
 ASSUMPTIONS = [
-    "an exception is 'explicitly raised by the library' when the source line of its innermost frame (worker traceback for pooled calls) is a raise statement in a file under src/pyimpspec",
+    "an exception is 'explicitly raised by the library' when the instruction that raised in its innermost frame is a RAISE_VARARGS of a code object from a file under src/pyimpspec (for exceptions that crossed a process pool: when the source line named by the worker's traceback is a raise statement)",
     "numpy/scipy/lmfit/statsmodels as installed; their exceptions escaping an entry point count as crashes of the entry point",
     "synthetic spectra are produced by the harness with numpy formulas (no library code)",
     "MPLBACKEND=Agg (the pooled log F_ext evaluation is only used with that backend)",
@@ -324,11 +325,19 @@ _FRAME_RE = re.compile(r'^\s*File "(?P<file>.+?)", line (?P<line>\d+), in (?P<fu
 
 
 def _frames(exc):
-    """[(file, line, func)] outermost..innermost, continued through a pool worker's traceback if there is one."""
+    """[(file, line, func, raise_opcode|None)] outermost..innermost, continued through a pool worker's traceback if there is one.
+    raise_opcode: True/False when the frame object is available (the instruction that raised is a RAISE_VARARGS), None for frames
+    known only from a worker's traceback text."""
     out = []
     tb = exc.__traceback__
     while tb is not None:
-        out.append((tb.tb_frame.f_code.co_filename, tb.tb_lineno, tb.tb_frame.f_code.co_name))
+        code = tb.tb_frame.f_code
+        try:
+            op = dis.opname[code.co_code[tb.tb_lasti]] if 0 <= tb.tb_lasti < len(code.co_code) else ""
+            is_raise = op == "RAISE_VARARGS"
+        except Exception:
+            is_raise = None
+        out.append((code.co_filename, tb.tb_lineno, code.co_name, is_raise))
         tb = tb.tb_next
     cause = exc.__cause__
     remote = False
@@ -337,14 +346,15 @@ def _frames(exc):
         for ln in cause.tb.splitlines():
             m = _FRAME_RE.match(ln)
             if m:
-                rem.append((m.group("file"), int(m.group("line")), m.group("func")))
+                rem.append((m.group("file"), int(m.group("line")), m.group("func"), None))
         if rem:
             out.extend(rem)
             remote = True
     return out, remote
 
 
-def _is_raise(fn, line):
+def _is_raise_text(fn, line):
+    """Source-text fallback (worker tracebacks): the line, or the statement it continues, starts with `raise`."""
     text = (linecache.getline(fn, line) or "").strip()
     if text.startswith("raise ") or text == "raise":
         return True
@@ -377,18 +387,19 @@ def describe(exc):
     if not frames:
         return {"type": type(exc).__name__, "entry": None, "site": "?", "foreign": None, "is_raise": False, "progress": False, "in_tree": False,
                 "where": "?", "remote": False}
-    fn, line, func = frames[-1]
+    fn, line, func, raise_op = frames[-1]
     in_tree = env.in_tree(fn)
-    site = next((fu for (fi, li, fu) in reversed(frames) if env.in_tree(fi) and not fi.endswith(os.sep + "progress.py")), "?")
-    entry = next((ENTRY_FUNCS[fu] for (fi, li, fu) in reversed(frames) if env.in_tree(fi) and fu in ENTRY_FUNCS), None)
+    site = next((fu for (fi, li, fu, _) in reversed(frames) if env.in_tree(fi) and not fi.endswith(os.sep + "progress.py")), "?")
+    entry = next((ENTRY_FUNCS[fu] for (fi, li, fu, _) in reversed(frames) if env.in_tree(fi) and fu in ENTRY_FUNCS), None)
     foreign = None
     if not in_tree:
         parts = fn.replace("\\", "/").split("/")
         pkg = parts[parts.index("site-packages") + 1] if "site-packages" in parts else (parts[-2] if len(parts) > 1 else "?")
         foreign = f"{pkg}:{func}"
+    is_raise = bool(in_tree and (raise_op if raise_op is not None else _is_raise_text(fn, line)))
     return {
         "type": type(exc).__name__, "entry": entry, "site": site, "foreign": foreign, "in_tree": in_tree,
-        "is_raise": bool(in_tree and _is_raise(fn, line)), "progress": fn.endswith(os.sep + "progress.py"),
+        "is_raise": is_raise, "progress": fn.endswith(os.sep + "progress.py"),
         "where": f"{os.path.relpath(fn, env.SRC) if in_tree else fn.split('site-packages/')[-1]}:{line} in {func}", "remote": remote,
     }
 
@@ -566,7 +577,7 @@ def run_call(ep, opts, f, Z, out):
             bad(f"C18/{name}/returned:{type(res).__name__}", f"returned {type(res).__name__} instead of {want.__name__}")
     else:
         kind, d = classify(exc)
-        origin = d["site"] + (f"<-{d['foreign']}" if d["foreign"] else "")
+        origin = d["site"] + (f"<-{d['foreign'].split(':')[0]}" if d["foreign"] else "")  # foreign package only: function names are version detail
         if kind == "refused":
             outcome = "refused"
             bump(f"{name}:refused:{d['type']}@{d['site']}")
@@ -681,7 +692,7 @@ def kk_cost(o, n):
     if o["test"] == "cnls":
         if nfe > 0 and o["num_procs"] > 1:
             return 0.3
-        return rep * scale * (0.8 if nfe == 0 else 5.0) * (0.2 if o["num_RC"] > 0 else 1.0)
+        return rep * (max(n, 6) / 7.0) ** 2 * (0.8 if nfe == 0 else 5.0) * (0.2 if o["num_RC"] > 0 else 1.0)
     if nfe == 0:
         return rep * 0.15 * scale * (0.1 if o["num_RC"] > 0 else 1.0)
     return rep * scale * 0.9 * (abs(nfe) / 15.0)
@@ -719,29 +730,39 @@ def _pack(ep, spectrum, calls, costs, budget, tag):
     return cases
 
 
-def _kk_models(full):
+def _kk_models(full, cnls):
     """Factor models.  full -> the complete cross product named in the property.  Otherwise three pairwise models: 'search'
     (automatic num_RC, log F_ext optimised: every row does real work), 'direct' (num_F_ext_evaluations=0) and 'refuse'
-    (cells the validation blocks must reject)."""
+    (cells the validation blocks must reject).  cnls rows are generated separately (they run on a smaller spectrum)."""
+    tests = ["cnls"] if cnls else KK_TESTS[:6]
     if full:
-        return [{"test": KK_TESTS, "adm": [False, True, None], "C": [True, False], "L": [True, False], "numrc": ["auto", "valid"], "nfe": KK_NFE,
+        return [{"test": tests, "adm": [False, True, None], "C": [True, False], "L": [True, False], "numrc": ["auto", "valid"], "nfe": KK_NFE,
                  "rapid": [True, False], "grid": ["default", "asym", "zero-min"], "np": [1]}]
+    if cnls:
+        return [
+            {"test": tests, "adm": [False, False, True, None], "C": [True, False], "L": [True, False], "numrc": ["auto"], "nfe": [-10, 10, 11, 20],
+             "rapid": [True, False], "grid": ["default", "asym"], "np": [1, 2]},
+            {"test": tests, "adm": [False, True, None], "C": [True, False], "L": [True, False], "numrc": ["auto", "valid", "max"], "nfe": [0],
+             "rapid": [True], "grid": ["default"], "lfe": [0.0, 0.7], "np": [1, 2]},
+        ]
     return [
-        {"test": KK_TESTS, "adm": [False, True, None], "C": [True, False], "L": [True, False], "numrc": ["auto"], "nfe": [-20, -10, 10, 11, 20],
+        {"test": tests, "adm": [False, True, None], "C": [True, False], "L": [True, False], "numrc": ["auto"], "nfe": [-20, -10, 10, 11, 20],
          "rapid": [True, False], "grid": list(KK_GRIDS), "np": [1, 1, 2]},
-        {"test": KK_TESTS, "adm": [False, True, None], "C": [True, False], "L": [True, False], "numrc": ["auto", "valid", "max"], "nfe": [0],
+        {"test": tests, "adm": [False, True, None], "C": [True, False], "L": [True, False], "numrc": ["auto", "valid", "max"], "nfe": [0],
          "rapid": [True, False], "grid": ["default", "asym"], "lfe": [0.0, 0.7, -0.4], "np": [1, 2]},
         {"test": ["complex", "real-inv", "cnls"], "adm": [False, None], "C": [True], "L": [True, False], "numrc": ["over", "one", "valid", "auto"],
          "nfe": [5, -3, 0, 20, -10], "rapid": [True], "grid": ["default"], "np": [1]},
     ]
 
 
-def _kk_rows(full, rng):
+def _kk_rows(full, rng, cnls=False):
     rows = []
-    for k, fac in enumerate(_kk_models(full)):
+    for k, fac in enumerate(_kk_models(full, cnls)):
         for r in (cross(fac) if full else pairwise(fac, rng)):
             if not full and k < 2 and r["test"].endswith("-inv"):
                 r = dict(r, L=True)  # the matrix-inversion tests require the inductance (refusal cells live in model 3)
+            if not full and k == 2 and r["test"] == "cnls" and r["numrc"] == "auto" and r["nfe"] in (20, -10):
+                r = dict(r, nfe=0)  # keep the refusal model cheap
             rows.append(r)
     return rows
 
@@ -861,11 +882,26 @@ def gen_cases(tier, seed):
         costs = [kk_cost(o, sp["n"]) for o in calls]
         order = np.argsort(rng.random(len(calls)))
         cases += _pack("kk", sp, [calls[i] for i in order], [costs[i] for i in order], budget, "kk:full-cross" if full else "kk:pairwise")
+    # exhaustive cheap block: every (test, representation, C, L) cell at a fixed log F_ext, fixed and automatic num_RC
+    sp = _spec(rng, int(rng.choice([8, 9, 10, 11])), ppd=rng.choice([2, 3]))
+    rows = cross({"test": KK_TESTS, "adm": [False, True, None], "C": [True, False], "L": [True, False], "numrc": ["valid", "auto"], "nfe": [0],
+                  "rapid": [True], "grid": ["default"], "np": [1]})
+    rows = [r for r in rows if not (r["test"] == "cnls" and r["numrc"] == "auto")]
+    calls = [kk_opts(r, sp["n"]) for r in rows]
+    costs = [kk_cost(o, sp["n"]) for o in calls]
+    cases += _pack("kk", sp, calls, costs, budget, "kk:direct-exhaustive")
+    # cnls runs its own pool per test and is ~50x slower: same models on a 7-point (2 points/decade) spectrum
+    sp = _spec(rng, 7, ppd=2, fam=str(rng.choice(["rq2", "rc", "rcw"])))
+    rows = _kk_rows(not quick, rng, cnls=True)
+    calls = [kk_opts(r, sp["n"]) for r in rows]
+    costs = [kk_cost(o, sp["n"]) for o in calls]
+    order = np.argsort(rng.random(len(calls)))
+    cases += _pack("kk", sp, [calls[i] for i in order], [costs[i] for i in order], budget, "kk:cnls-full-cross" if not quick else "kk:cnls-pairwise")
     # the nested-pool cell and the log_F_ext knob, always present
-    sp = _spec(rng, 10, ppd=3, fam="rq2")
+    sp = _spec(rng, 8, ppd=2, fam="rq2")
     extra = [
-        {"test": "cnls", "num_procs": 2, "max_nfev": 100, "admittance": False},
-        {"test": "cnls", "num_procs": 1, "max_nfev": 100, "admittance": False, "num_F_ext_evaluations": 10},
+        {"test": "cnls", "num_procs": 2, "max_nfev": 100, "admittance": False, "num_F_ext_evaluations": 10},
+        {"test": "cnls", "num_procs": 2, "max_nfev": 0, "admittance": False, "num_RC": 5, "num_F_ext_evaluations": 0},
         {"test": "complex", "num_procs": 2},
         {"test": "real", "num_procs": 2, "num_F_ext_evaluations": 11, "min_log_F_ext": -0.5, "max_log_F_ext": 1.5},
         {"test": "imaginary", "num_RC": 6, "num_F_ext_evaluations": 0, "log_F_ext": 0.7, "num_procs": 1},
@@ -875,7 +911,7 @@ def gen_cases(tier, seed):
         {"test": "bogus", "num_procs": 1},
         {"test": "bogus", "num_RC": 3, "num_F_ext_evaluations": 0, "num_procs": 1},
     ]
-    cases += _pack("kk", sp, extra, [3, 6, 2, 2, 0.1, 0.3, 0.01, 0.01, 0.01, 0.01], budget, "kk:extra")
+    cases += _pack("kk", sp, extra, [8, 2, 2, 2, 0.1, 0.3, 0.01, 0.01, 0.01, 0.01], budget, "kk:extra")
     # sparse class (known finding F20): a few default runs at 1 point/decade and below 7 points
     for nn, ppd in ([(5, 2), (13, 1)] if quick else [(3, 2), (4, 1), (5, 2), (6, 3), (9, 1), (13, 1), (14, 1)]):
         sp = _spec(rng, nn, ppd=ppd)
